@@ -3,8 +3,10 @@
 # writes /verif/seeded/<Cxx>-<variant>/{patch.diff,demo/,meta.json,confirm.log}
 P=$1
 ONLY=$2
-SRC=/tmp/seed/$P/_seed
-WT=/tmp/confirm/$P
+SEEDROOT=${SEEDROOT:-/tmp/seed}
+TAG=${TAG:-}
+SRC=$SEEDROOT/$P/_seed
+WT=/tmp/confirm/$P$TAG
 mkdir -p /tmp/confirm
 git -C /repo worktree remove --force $WT 2>/dev/null
 git -C /repo worktree add -q --detach $WT HEAD || exit 2
@@ -12,7 +14,7 @@ cp -r $SRC $WT/_seed
 cd $WT
 for V in $(ls $SRC); do
   [ -f $SRC/$V/patch.diff ] || continue
-  OUT=/verif/seeded/$P-$V
+  OUT=/verif/seeded/$P-$TAG$V
   mkdir -p $OUT
   LOG=$OUT/confirm.log
   : > $LOG
@@ -23,9 +25,9 @@ for V in $(ls $SRC); do
   if ! git apply --check $PATCH 2>>$LOG; then
     # the tree moved on since the seed was written (later fix: commits): rebase the patch with fuzz and regenerate it
     if patch -p1 --no-backup-if-mismatch -s -f -i $PATCH >>$LOG 2>&1; then
-      git diff > /tmp/confirm/$P-$V.rebased.diff
+      git diff > /tmp/confirm/$P-$TAG$V.rebased.diff
       git checkout -q -- .
-      PATCH=/tmp/confirm/$P-$V.rebased.diff
+      PATCH=/tmp/confirm/$P-$TAG$V.rebased.diff
       echo "patch rebased onto $(git -C /repo rev-parse --short HEAD)" >> $LOG
     fi
   fi
@@ -43,7 +45,7 @@ for V in $(ls $SRC); do
   cp $PATCH $OUT/patch.diff
   rm -rf $OUT/demo; cp -r $SRC/$V/demo $OUT/demo 2>/dev/null
   cp $SRC/$V/notes.md $OUT/notes.md 2>/dev/null
-  echo "$P $V applies=$applies suite=$suite demo_with_change=$demo_with demo_without_change=$demo_without head=$(git -C /repo rev-parse --short HEAD)" | tee $OUT/confirm.txt
+  echo "$P $TAG$V applies=$applies suite=$suite demo_with_change=$demo_with demo_without_change=$demo_without head=$(git -C /repo rev-parse --short HEAD)" | tee $OUT/confirm.txt
 done
 cd /
 git -C /repo worktree remove --force $WT
